@@ -58,18 +58,23 @@ def apply_edits(root, edits):
         if s.count(old) != count:
             return 'anchor text occurs %d time(s) in %s, expected %d: %r' % (s.count(old), path, count, old[:60])
         s = s.replace(old, new)
-        try:
-            compile(s, p, 'exec')
-        except SyntaxError as ex:
-            return 'edit yields a syntax error: %s' % ex
+        if p.endswith('.py'):
+            try:
+                compile(s, p, 'exec')
+            except SyntaxError as ex:
+                return 'edit yields a syntax error: %s' % ex
         open(p, 'w', encoding='utf-8').write(s)
     return None
 
 
 def run_variant(args):
     v, repo_root = args
+    # the depth-3 bounded compiler check costs ~15 s per property: variants that do not need it run it at depth 2
+    os.environ['VERIF_BOUNDED_DEPTH'] = '3' if v.get('deep') else '2'
     d = make_copy(repo_root)
     res = dict(id=v['id'], expect=v['expect'], props=v['props'])
+    import time as _t
+    t0 = _t.time()
     try:
         why = apply_edits(d, v['edits'])
         if why:
@@ -102,20 +107,24 @@ def run_variant(args):
             res['status'] = 'ok' if not fired and not errors else 'FALSE-ALARM'
         return res
     finally:
+        res['secs'] = round(_t.time() - t0, 1)
         shutil.rmtree(d, ignore_errors=True)
 
 
 def run(variants, repo_root, jobs=16, verbose=True):
     if not variants:
         return 0, []
-    with multiprocessing.Pool(min(jobs, len(variants))) as pool:
-        results = pool.map(run_variant, [(v, repo_root) for v in variants])
+    # worker processes must be able to start their own helpers (the bounded compiler check is parallel)
+    from concurrent.futures import ProcessPoolExecutor
+    os.environ['VERIF_INNER_JOBS'] = '2'
+    with ProcessPoolExecutor(max_workers=min(jobs, len(variants))) as pool:
+        results = list(pool.map(run_variant, [(v, repo_root) for v in variants]))
     bad = 0
     for r in results:
         if r['status'] in ('MISSED', 'FALSE-ALARM'):
             bad += 1
         if verbose or r['status'] != 'ok':
-            print('selftest %-12s %-44s expect=%-6s %s' % (r['status'], r['id'], r['expect'],
+            print('selftest %-12s %5.1fs %-44s expect=%-6s %s' % (r['status'], r.get('secs', 0), r['id'], r['expect'],
                                                             r.get('why') or '; '.join((r.get('fired') or [])[:2] + (r.get('errors') or [])[:2])))
     return bad, results
 
